@@ -74,7 +74,7 @@ func hasBigRange(toks []string) bool {
 			if e1 != nil || e2 != nil {
 				continue
 			}
-			if b-a > 10000 || b-a < 0 && a-b > 1<<62 {
+			if a < b && spanAbove(a, b, 10000) {
 				return true
 			}
 		}
@@ -239,4 +239,16 @@ func ExecFuzz(c *FuzzCase) (verdict string, skipped bool) {
 func ExecFuzzBytes(data []byte) string {
 	v, _ := ExecFuzz(DecodeFuzz(data))
 	return v
+}
+
+// spanAbove - b-a > n without overflow (a < b).
+func spanAbove(a, b, n int) bool {
+	if a >= 0 || b < 0 {
+		return b-a > n // same sign: no overflow
+	}
+	// a < 0 <= b
+	if b > n {
+		return true
+	}
+	return -a > n-b
 }
